@@ -71,6 +71,7 @@ def safe_repr(x):
 
 class Proto(HasTraits):
     x = Event
+    n = Int(0)
 
 
 NAN1, NAN2 = float("nan"), float("nan")
@@ -83,7 +84,7 @@ POOL = {
     "nan1": NAN1, "nan2": NAN2, "badeq": BAD, "None": None, "a": "a",
     "b": "b", "A1": A1, "A2": A2, "2.0": 2.0, "big": 10 ** 20,
     "big2": 10 ** 20 + 0, "sa2": "".join(["a"]),
-    "badrepr": BadRepr(), "badrepr2": BadRepr(),
+    "badrepr": BadRepr(), "badrepr2": BadRepr(), "7": 7, "0": 0,
     "C0": C0, "FOO0": FOO0, "e1": "1+1", "e1b": "".join(["1+", "1"]),
     "e2": "2", "ebad": "1+",
 }
@@ -116,6 +117,11 @@ KINDS = {
     # an Event reached through a PrototypedFrom trait, fired on the
     # deferring object
     "EventProto": (lambda m: PrototypedFrom("proto"), ["1", "L1", "None"]),
+    # a value prototyped from another object whose value is off its
+    # declared default: "old" of the first local assignment is what was
+    # readable before (the prototype's value), not the declared default
+    "ProtoInt": (lambda m: PrototypedFrom("proto", prefix="n"),
+                 ["7", "0", "1", "a"]),
 }
 HANDLERS = ["static", "static_base", "anytrait", "otc_fn", "otc_method",
             "obs1", "obs2", "otc_ui", "obs_ui", "dec_otc", "dec_obs"]
@@ -124,15 +130,17 @@ HANDLERS = ["static", "static_base", "anytrait", "otc_fn", "otc_method",
 def configs():
     out = []
     for kind in KINDS:
-        modes = ["equality"] if kind.startswith("Event") else list(MODES)
+        modes = ["equality"] if kind.startswith("Event") or \
+            kind == "ProtoInt" else list(MODES)
         for mode in modes:
             out.append((kind, mode))
     return out
 
 
 class Rig:
-    def __init__(self, kind, mode, raiser):
+    def __init__(self, kind, mode, raiser, threaded=False):
         self.kind, self.mode, self.raiser = kind, mode, raiser
+        self.threaded = threaded
         self.log = {h: [] for h in HANDLERS}
         self.swallowed = []
         log, rig = self.log, self
@@ -175,6 +183,8 @@ class Rig:
                 rec("otc_method", name, old, new)
         self.listener = Listener()
         self.o = Owner()
+        if kind == "ProtoInt":
+            self.o.proto.n = 7
         self.o.on_trait_change(
             lambda obj, name, old, new: rec("otc_fn", name, old, new), "x")
         self.o.on_trait_change(self.listener.m, "x")
@@ -197,6 +207,44 @@ class Rig:
 
 MISSING = object()
 
+# "ui" dispatch from a worker thread: the registered UI handler queues the
+# call; the main thread drains the queue after the assignment returned
+import threading  # noqa: E402
+from traits.trait_notifiers import set_ui_handler  # noqa: E402
+
+UI_QUEUE = []
+set_ui_handler(lambda handler, *args, **kw: UI_QUEUE.append(
+    (handler, args, kw)))
+
+
+def drain_ui_queue():
+    while UI_QUEUE:
+        handler, args, kw = UI_QUEUE.pop(0)
+        try:
+            handler(*args, **kw)
+        except Exception:
+            pass        # (a UI event loop contains what its callbacks raise)
+
+
+def maybe_threaded(rig, f):
+    """run f() in a worker thread when the rig is in threaded mode"""
+    if not getattr(rig, "threaded", False):
+        return f()
+    box = {}
+
+    def target():
+        try:
+            box["r"] = f()
+        except BaseException as e:
+            box["e"] = e
+    t = threading.Thread(target=target)
+    t.start()
+    t.join()
+    drain_ui_queue()
+    if "e" in box:
+        raise box["e"]
+    return box.get("r")
+
 
 def counts_as_change(mode, old, new):
     """From the statement. Returns True / False / None (verdict open)."""
@@ -215,7 +263,7 @@ def counts_as_change(mode, old, new):
 def declared_default(kind):
     return {"Any": None, "Int": 0, "Str": "", "Float": 0.0, "List": [],
             "Instance": None, "AdaptsTo": None, "Supports": None,
-            "Expression": "0"}.get(kind)
+            "Expression": "0", "ProtoInt": 7}.get(kind)
 
 
 def step(ctx, rig, ev, hist):
@@ -230,7 +278,8 @@ def step(ctx, rig, ev, hist):
     def bad(k, msg):
         nonlocal good
         good = False
-        ctx.violation("C02:%s:%s:%s:raiser=%s" % (k, kind, mode, rig.raiser),
+        ctx.violation("C02:%s:%s:%s:raiser=%s%s" % (
+            k, kind, mode, rig.raiser, ":threaded" if rig.threaded else ""),
                       msg, kind=kind, mode=mode, raiser=rig.raiser,
                       history=hist, event=ev,
                       calls={h: [(n, safe_repr(a), safe_repr(b))
@@ -265,9 +314,9 @@ def step(ctx, rig, ev, hist):
     exc = None
     try:
         if len(ev) > 2:
-            o.trait_set(x=v)
+            maybe_threaded(rig, lambda: o.trait_set(x=v))
         else:
-            o.x = v
+            maybe_threaded(rig, lambda: setattr(o, "x", v))
     except TraitError as e:
         exc = e
     except Exception as e:
@@ -378,6 +427,11 @@ def shards(tier):
     for kind, mode in configs():
         for grp in (0, 1, 2):
             out.append({"kind": kind, "mode": mode, "group": grp})
+    # assignments made from a worker thread (ui-dispatched handlers are
+    # queued and run by the main thread afterwards)
+    for kind, mode in (("Any", "equality"), ("Any", "none"),
+                       ("Int", "equality"), ("Event", "equality")):
+        out.append({"kind": kind, "mode": mode, "group": 0, "threaded": True})
     return out
 
 
@@ -397,11 +451,14 @@ def canon(rig):
 
 def run_shard(ctx, shard, tier):
     raisers = ([None] + HANDLERS)[shard["group"]::3]
+    if shard.get("threaded"):
+        raisers = [None, "obs_ui", "otc_ui"]
     for raiser in raisers:
-        run_config(ctx, shard["kind"], shard["mode"], raiser, tier)
+        run_config(ctx, shard["kind"], shard["mode"], raiser, tier,
+                   threaded=bool(shard.get("threaded")))
 
 
-def run_config(ctx, kind, mode, raiser, tier):
+def run_config(ctx, kind, mode, raiser, tier, threaded=False):
     depth = 4 if tier == "quick" else 6
     evs = events(kind)
     # stateless enumeration of all histories up to `depth` with canonical
@@ -415,9 +472,9 @@ def run_config(ctx, kind, mode, raiser, tier):
             for ev in evs:
                 h2 = hist + [ev]
                 ctx.case({"kind": kind, "mode": mode, "raiser": raiser,
-                          "history": h2})
+                          "history": h2, "threaded": threaded})
                 ctx.ev()
-                rig = Rig(kind, mode, raiser)
+                rig = Rig(kind, mode, raiser, threaded)
                 ok = True
                 for i, e in enumerate(h2):
                     if i < len(h2) - 1:
@@ -425,7 +482,7 @@ def run_config(ctx, kind, mode, raiser, tier):
                         replay_quiet(rig, e)
                     else:
                         ok = step(ctx, rig, e, h2)
-                key = (kind, mode, raiser, canon(rig))
+                key = (kind, mode, raiser, threaded, canon(rig))
                 if ok and ctx.state(key):
                     nxt.append(h2)
         frontier = nxt
@@ -439,10 +496,11 @@ def replay_quiet(rig, ev):
         if ev[0] == "read":
             rig.o.x
         else:
+            v = POOL[ev[1]]
             if len(ev) > 2:
-                rig.o.trait_set(x=POOL[ev[1]])
+                maybe_threaded(rig, lambda: rig.o.trait_set(x=v))
             else:
-                rig.o.x = POOL[ev[1]]
+                maybe_threaded(rig, lambda: setattr(rig.o, "x", v))
             if rig.kind.startswith("Event"):
                 rig.fired = getattr(rig, "fired", 0) + 1
     except Exception:
@@ -453,7 +511,7 @@ def replay(rec):
     from mc.ctx import Ctx
     ctx = Ctx("C02", None, "quick", 0)
     c = rec["case"]
-    rig = Rig(c["kind"], c["mode"], c["raiser"])
+    rig = Rig(c["kind"], c["mode"], c["raiser"], c.get("threaded", False))
     for e in c["history"]:
         e = tuple(e)
         step(ctx, rig, e, c["history"])
